@@ -82,7 +82,15 @@ func (s *Spec) manifest() map[string]any {
 	var cons []any
 	switch s.Constraint {
 	case "openshift":
-		cons = append(cons, map[string]any{"platform": []any{"OpenShift"}})
+		// the list names every platform the package insists on; its order must not matter (shape chosen without a PRNG draw)
+		switch (len(s.Objects) + s.Variant) % 3 {
+		case 0:
+			cons = append(cons, map[string]any{"platform": []any{"Kubernetes", "OpenShift"}})
+		case 1:
+			cons = append(cons, map[string]any{"platform": []any{"OpenShift"}})
+		default:
+			cons = append(cons, map[string]any{"platform": []any{"OpenShift", "Kubernetes"}})
+		}
 	case "k8s-new":
 		cons = append(cons, map[string]any{"platformVersion": map[string]any{"name": "Kubernetes", "range": ">=1.99.0"}})
 	case "k8s-ok":
